@@ -177,7 +177,24 @@ func c17Gen(t *rapid.T) c17Case {
 		}
 		return c17Case{Kind: "lifecycle", C10: &c}
 	case 4, 5, 6:
+		if rapid.IntRange(0, 5).Draw(t, "longwrite") == 0 {
+			// a run that writes files for more than a second: the once-a-second NUMBERWRITTEN / trigger-rate messages are
+			// published while blocks keep coming
+			c := c10Case{Source: rapid.SampledFrom([]string{"triangle", "scripted", "simpulse"}).Draw(t, "lwsource"), Nchan: rapid.IntRange(1, 4).Draw(t, "lwnchan"),
+				Ops: []c10Op{{Op: "start"}, {Op: "wstart", N: rapid.IntRange(0, 1).Draw(t, "lwtypes")}, {Op: "waitlong", N: rapid.IntRange(1050, 1400).Draw(t, "lwms")},
+					{Op: "request"}, {Op: "wait", N: 5}, {Op: "stop", K: 1, Stagger: []int{0}}}}
+			return c17Case{Kind: "lifecycle", C10: &c}
+		}
 		c := c11Gen(t)
+		// a status request right after a projector change (the RPC layer keeps the channels with projectors in its status)
+		var steps []c11Step
+		for _, st := range c.Steps {
+			steps = append(steps, st)
+			if st.Op == "proj" && rapid.Bool().Draw(t, "sendallafterproj") {
+				steps = append(steps, c11Step{Op: "sendall"})
+			}
+		}
+		c.Steps = steps
 		return c17Case{Kind: "requests", C11: &c}
 	case 7, 8:
 		c := c04Gen(t)
